@@ -28,11 +28,13 @@ import (
 type frame struct {
 	Body []byte
 	JSON map[string]any
+	End  int // offset in the parsed buffer just past this frame
 }
 
 // splitFrames parses as many complete frames as buf holds. It returns the frames,
 // the unconsumed rest and an error for anything that is not a well-formed frame.
 func splitFrames(buf []byte) (frames []frame, rest []byte, err error) {
+	total := len(buf)
 	for {
 		i := bytes.Index(buf, []byte("\r\n\r\n"))
 		if i < 0 {
@@ -63,8 +65,8 @@ func splitFrames(buf []byte) (frames []frame, rest []byte, err error) {
 		if jerr := json.Unmarshal(body, &m); jerr != nil {
 			return frames, buf, fmt.Errorf("frame body of %d bytes is not one JSON object (%v): %q", n, jerr, kernel.Short(string(body), 120))
 		}
-		frames = append(frames, frame{Body: body, JSON: m})
 		buf = buf[i+4+n:]
+		frames = append(frames, frame{Body: body, JSON: m, End: total - len(buf)})
 	}
 }
 
@@ -335,11 +337,8 @@ func subT(rc *kernel.RunCtx, k *kernel.Kernel) {
 	frames, _, _ := splitFrames(wire)
 	// frame boundaries, to know how many complete messages a prefix holds
 	var ends []int
-	off := 0
 	for _, f := range frames {
-		hdr := len(fmt.Sprintf("Content-Length: %d\r\n\r\n", len(f.Body)))
-		off += hdr + len(f.Body)
-		ends = append(ends, off)
+		ends = append(ends, f.End) // whatever header fields the writer chose to send
 	}
 	limit := rc.Param("all_prefixes_upto", 1500)
 	evals := 0
